@@ -4,15 +4,19 @@
 -/
 import Otr.DriverPure
 import Otr.DriverConv
+import Otr.DriverKeyFile
 namespace Otr.Driver
 
 def step (st : DState) (line : String) : DState × String :=
   match pureOp line with
   | some r => (st, r)
   | none =>
-    match convOp st line with
-    | some r => r
-    | none => (st, "bad-op")
+    match keyFileOp line with
+    | some r => (st, r)
+    | none =>
+      match convOp st line with
+      | some r => r
+      | none => (st, "bad-op")
 
 def runAll (lines : List String) (put : String → IO Unit) : IO DState := do
   let mut st : DState := {}
